@@ -338,3 +338,122 @@ func famRawSrv(w *World, c *Case, rng *rand.Rand) {
 	_ = fmt.Sprint
 	w.Finish()
 }
+
+// ---- raw client: offence against a stream whose handler is blocked in Send ----
+
+func init() {
+	families["blockedsend"] = famBlockedSend
+	prev := listers["C09"]
+	listers["C09"] = func(tier string, seed int64) []Case {
+		out := prev(tier, seed)
+		rng := rand.New(rand.NewSource(seed*7933 + 909))
+		reps := 1
+		if tier == "thorough" {
+			reps = 30
+		}
+		for r := 0; r < reps; r++ {
+			for _, off := range []string{"cancel", "empty", "overrun", "data-without-envelope", "envelope-inside", "window-then-cancel", "hangup"} {
+				for _, win := range []int{0, 10, 20000} {
+					for _, dir := range []string{"forward", "reverse"} {
+						for _, shape := range []string{"ServerStream", "Bidi"} {
+							out = append(out, Case{Family: "blockedsend", Seed: rng.Int63(), Cfg: WorldCfg{Dir: dir}, P: map[string]int{"win": win}, S: map[string]string{"offence": off, "shape": shape}})
+						}
+					}
+				}
+			}
+		}
+		return out
+	}
+}
+
+func famBlockedSend(w *World, c *Case, rng *rand.Rand) {
+	off, shape, win := c.s("offence", "cancel"), c.s("shape", "Bidi"), c.p("win", 0)
+	w.SigExtra = fmt.Sprintf("%s/%s/%d", off, shape, win)
+	w.Wire.JudgeClient = false
+	w.Window.JudgeClient = false
+	rc, err := w.OpenRawClient(true, false)
+	if err != nil {
+		w.Violate("C09", "raw-open-failed", "raw client could not open the tunnel: %v", err)
+		w.Finish()
+		return
+	}
+	rc.AutoCredit = false
+	w.Wait()
+	// the victim's handler sends far more than the window the raw peer advertised and never gets credit
+	w.Env.registerSpec(&RPCSpec{ID: "v", Method: shape, Handler: []Op{{K: "recv"}, {K: "send", N: 30000}, {K: "send", N: 30000}, {K: "ret"}}})
+	w.Env.registerSpec(&RPCSpec{ID: "by", Method: "Unary", Handler: []Op{{K: "recv"}, {K: "send", N: 7}, {K: "ret"}}})
+	_ = rc.Send(fNew(0, "verif.Svc/"+shape, "v", 1, uint32(win)))
+	for _, f := range msgFramesC2S(0, wrapBytes(GenPayload("v", dirReq, 0, 10)), 16384) {
+		_ = rc.Send(f)
+	}
+	if shape == "ServerStream" {
+		_ = rc.Send(fHalf(0))
+	}
+	w.Wait()
+	blocked := false
+	for _, r := range w.Env.Log.OpenOps() {
+		if r.RPC == "v" && r.K == "send" {
+			blocked = true
+		}
+	}
+	if blocked {
+		w.Stat("blockedsend_handler_blocked", 1)
+	}
+	switch off {
+	case "cancel":
+		_ = rc.Send(fCancel(0))
+	case "empty":
+		_ = rc.Send(&tunnelpb.ClientToServer{StreamId: 0})
+	case "overrun":
+		for _, f := range msgFramesC2S(0, make([]byte, 70000), 16384) {
+			_ = rc.Send(f)
+		}
+	case "data-without-envelope":
+		_ = rc.Send(fMore(0, []byte{1, 2, 3}))
+	case "envelope-inside":
+		_ = rc.Send(fMsg(0, 100, []byte{1, 2, 3}))
+		_ = rc.Send(fMsg(0, 100, []byte{1, 2, 3}))
+	case "window-then-cancel":
+		_ = rc.Send(fWin(0, 5))
+		_ = rc.Send(fCancel(0))
+	case "hangup":
+	}
+	w.Wait()
+	// an ordinary RPC on the same tunnel must still be answered
+	if off != "hangup" {
+		_ = rc.Send(fNew(1, "verif.Svc/Unary", "by", 1, 65536))
+		for _, f := range msgFramesC2S(1, wrapBytes(GenPayload("by", dirReq, 0, 5)), 16384) {
+			_ = rc.Send(f)
+		}
+		_ = rc.Send(fHalf(1))
+		w.Advance(time.Second)
+		views, recvDone, recvErr := rc.Snapshot()
+		if recvDone {
+			w.Violate("C09", "stream-level-violation-killed-tunnel", "offence %s against a stream whose handler is blocked on the window ended the tunnel: %v", w.SigExtra, recvErr)
+		}
+		if b := views[1]; b.Closes != 1 || b.Close.GetStatus().GetCode() != 0 || len(b.Msgs) != 1 {
+			w.Violate("C09", "bystander-stream-disturbed", "offence %s against a stream whose handler is blocked on the window: the next RPC on the tunnel was not answered (closes=%d)", w.SigExtra, b.Closes)
+			w.Violate("C03", "raw-deviation-disturbed-bystander", "offence %s against a stream whose handler is blocked on the window: the next RPC on the tunnel was not answered", w.SigExtra)
+		}
+		// (data after a half-close is dropped by the receiver, so an overrun on the
+		// half-closed server-stream is not even noticed: nothing is demanded there)
+		if off == "cancel" || off == "window-then-cancel" || off == "empty" || (off == "overrun" && shape == "Bidi") {
+			if v := views[0]; v.Closes != 1 {
+				w.Violate("C09", "offending-stream-not-closed", "offence %s: the offending stream received %d close frames", w.SigExtra, v.Closes)
+			}
+			for _, r := range w.Env.Log.OpenOps() {
+				if r.RPC == "v" {
+					w.Violate("C07", "handler-op-still-blocked:"+r.K, "offence %s: handler op %s of the finished stream is still blocked", w.SigExtra, r.K)
+				}
+			}
+		}
+	}
+	w.Stat("blockedsend_runs", 1)
+	rc.Hangup()
+	w.Advance(time.Second)
+	for _, r := range w.Env.Log.OpenOps() {
+		w.Violate("C09", "handler-op-open-after-hangup", "offence %s: handler %s op %s still blocked after the peer hung up", w.SigExtra, r.RPC, r.K)
+	}
+	w.CheckTables(nil, 0, 0, true, "after raw peer hung up")
+	w.Finish()
+}
